@@ -19,7 +19,10 @@ META = {
             "compile_accepts_checked, compile_static_rejects, compile_rejects_unchecked, compile_deterministic, opcode_table_matches / type_table_matches "
             "(decide, against tables regenerated from the Go sources on every run), rejected_not_run, cache_transparent(_seq) for every cache size and "
             "eviction policy. Ties: bytecode equality (instruction bytes, typed resources, needed balances, sources identical to the real compiler's on every "
-            "generated program, same compile_error verdict), VM model vs real VM, end-to-end Spec vs compiler+VM (each compiled program executed twice to detect state left in it); the "
+            "generated program, same compile_error verdict), VM model vs real VM, end-to-end Spec vs compiler+VM (each compiled program executed twice to detect state left in it, "
+            "then a third time on a SECOND variable map — assets, accounts, monetaries, numbers switched — and held to a fresh compilation of the same text on that "
+            "map, then once more on the first map: a compiled program must not remember a run, program-remembers-a-run; monetary literals whose asset is a "
+            "variable, `[$cur 100]`, occur in send amounts, caps, overdrafts, metadata values and saves of 8-9 % of the programs); the "
             "engine's real compilation cache (command.NewCompiler, sizes 1 / 2 / 1024) is fed sequences of near-identical texts (blanks in strings and in the "
             "multi-word overdraft tokens, comments, CRLF, trailing newline, letter case, one digit) and must hand out, at every position, exactly what a fresh "
             "compiler.Compile of that text gives (cache-not-transparent).",
@@ -122,6 +125,11 @@ def run(ctx):
         if "unstable" in a:
             rp.violation({"property": "C08", "class": "second-run-differs"}, "running the same compiled program twice gave different outcomes",
                          inp, a, lambda o: "unstable" in o)
+        if "remembers" in a:
+            m = a["remembers"]
+            rp.violation({"property": "C08", "class": "program-remembers-a-run"},
+                         "run %s of ONE compiled program (%s) differs from a fresh compilation of the same text on the same values: the program "
+                         "kept something of an earlier run" % (m.get("run"), m.get("on")), inp, a, lambda o: "remembers" in o)
         if "panic" in a:
             continue  # a crash is C12's business
         if canon(pa) != canon(pb):
@@ -132,6 +140,7 @@ def run(ctx):
                 sig["fields"] = ",".join(sorted(k for k in pa if canon(pa.get(k)) != canon(pb.get(k))))
             rp.violation(sig, what, inp, a, lambda o, pb=pb: "panic" not in o and canon(proj(o)) != canon(pb), extra={"source_says": b})
     ctx.cov["replay_isolation"] = dict(rp.stats)
+    ctx.cov["second_variable_map"] = rebind_stats(inputs, impl)
     for inp in inputs:
         a = impl.get(inp["id"], {})
         f = features(inp)
